@@ -4,6 +4,7 @@ import GrinVerif.Lemmas.ChainApply
 import GrinVerif.Lemmas.ChainValue
 import GrinVerif.Lemmas.ChainMoreReject
 import GrinVerif.Lemmas.ChainMoreExamples
+import GrinVerif.Lemmas.ChainFull
 /-! # C01 — no value is created (value component of the balance equation, in the opening model
 of DESIGN §2.3; blinding-level faults are carried as tags and decided by the real code) -/
 namespace GV.Props.C01
@@ -223,6 +224,145 @@ theorem coinbase_output_without_kernel_refused (p : Params) (n : Node) (b : Blk)
   unfold coinbaseMismatch at hcm
   simp [hk, ho] at hcm
 
+/-! ## full-state validation (`Extension::validate`, `Model/ChainFull.lean`): what
+`Chain::validate(false)`, `txhashset_write` and the desegmenter's `validate_complete_state` accept -/
+
+/-- **Full validation accepts exactly the fault-free, balanced states — for every count.** For a
+state above height 0, every kernel batch size, every range-proof batch size, every number and
+interleaving of kernel-MMR leaves and parents and every number of unspent outputs: the full
+validation passes iff the MMR hashes, roots and sizes are right, the unspent outputs are worth
+exactly the height-determined supply with no blinding-level fault, every unspent output has its
+data and a good range proof, and every kernel is readable and well signed. -/
+theorem validateFull_ok_iff (p : Params) (kB pB : Nat) (s : FullState) (hh : s.height ≠ 0) :
+    validateFull p kB pB s false = none ↔
+      s.mmrFault = none ∧ s.rootFault = none ∧ s.sizeFault = none ∧
+      s.total = s.supply p ∧ s.blindFault = none ∧
+      (∀ o ∈ s.utxo, o.good) ∧ (∀ q ∈ s.kernelMmr, q.good) := by
+  unfold validateFull
+  cases h1 : s.mmrFault with
+  | some e => simp
+  | none =>
+  cases h2 : s.rootFault with
+  | some e => simp
+  | none =>
+  cases h3 : s.sizeFault with
+  | some e => simp
+  | none =>
+  simp only [hh, if_false, true_and]
+  by_cases hv : s.total = s.supply p
+  · simp only [hv, ne_eq, not_true_eq_false, if_false, true_and]
+    cases h4 : s.blindFault with
+    | some e => simp
+    | none =>
+    simp only [Bool.false_eq_true, if_false, true_and]
+    cases h5 : proofLoop pB s.utxo [] with
+    | some e =>
+      have : ¬ (∀ o ∈ s.utxo, o.good) := by
+        intro hg
+        have := (proofLoop_none_iff pB s.utxo []).mpr ⟨by simp, hg⟩
+        rw [h5] at this; cases this
+      simp [this]
+    | none =>
+      have hg := ((proofLoop_none_iff pB s.utxo []).mp h5).2
+      rw [sigLoop_none_iff]
+      constructor
+      · intro hs; exact ⟨hg, hs.2⟩
+      · intro hs; exact ⟨by simp, hs.2⟩
+  · simp [hv]
+
+/-- … and the fast validation accepts exactly the states with right hashes, roots and sizes whose
+sums balance (signatures and range proofs are not looked at). -/
+theorem validateFull_fast_ok_iff (p : Params) (kB pB : Nat) (s : FullState) (hh : s.height ≠ 0) :
+    validateFull p kB pB s true = none ↔
+      s.mmrFault = none ∧ s.rootFault = none ∧ s.sizeFault = none ∧
+      s.total = s.supply p ∧ s.blindFault = none := by
+  unfold validateFull
+  cases h1 : s.mmrFault with
+  | some e => simp
+  | none =>
+  cases h2 : s.rootFault with
+  | some e => simp
+  | none =>
+  cases h3 : s.sizeFault with
+  | some e => simp
+  | none =>
+  simp only [hh, if_false, true_and]
+  by_cases hv : s.total = s.supply p
+  · simp only [hv, ne_eq, not_true_eq_false, if_false, true_and]
+    cases h4 : s.blindFault <;> simp
+  · simp [hv]
+
+/-- **One badly signed kernel anywhere** in the kernel MMR — first, last, in any batch, whatever
+the number of kernels and the batch size — and the full validation refuses the state. -/
+theorem bad_signature_refused (p : Params) (kB pB : Nat) (s : FullState) (hh : s.height ≠ 0)
+    (k : KItem) (hk : KPos.leaf k ∈ s.kernelMmr) (hb : k.sigBad = true) :
+    validateFull p kB pB s false ≠ none := by
+  intro h
+  have := ((validateFull_ok_iff p kB pB s hh).mp h).2.2.2.2.2.2 _ hk
+  simp only [KPos.good] at this
+  rw [hb] at this; cases this
+
+/-- **One unspent output with a bad range proof, or whose output / proof data cannot be read**,
+anywhere in the unspent set, whatever its size: the full validation refuses the state. -/
+theorem bad_rangeproof_refused (p : Params) (kB pB : Nat) (s : FullState) (hh : s.height ≠ 0)
+    (o : OItem) (ho : o ∈ s.utxo)
+    (hb : o.proofBad = true ∨ o.outMissing = true ∨ o.proofMissing = true) :
+    validateFull p kB pB s false ≠ none := by
+  intro h
+  obtain ⟨h1, h2, h3⟩ := ((validateFull_ok_iff p kB pB s hh).mp h).2.2.2.2.2.1 _ ho
+  rcases hb with hb | hb | hb
+  · rw [hb] at h3; cases h3
+  · rw [hb] at h1; cases h1
+  · rw [hb] at h2; cases h2
+
+/-- **A state whose sums do not balance** (the unspent outputs are not worth the supply, or a
+blinding-level fault) is refused by the full and by the fast validation. -/
+theorem unbalanced_state_refused (p : Params) (kB pB : Nat) (s : FullState) (hh : s.height ≠ 0)
+    (fast : Bool) (hb : s.total ≠ s.supply p ∨ s.blindFault ≠ none) :
+    validateFull p kB pB s fast ≠ none := by
+  intro h
+  have : s.total = s.supply p ∧ s.blindFault = none := by
+    cases fast
+    · have := (validateFull_ok_iff p kB pB s hh).mp h
+      exact ⟨this.2.2.2.1, this.2.2.2.2.1⟩
+    · have := (validateFull_fast_ok_iff p kB pB s hh).mp h
+      exact ⟨this.2.2.2.1, this.2.2.2.2⟩
+  rcases hb with hb | hb
+  · exact hb this.1
+  · exact hb this.2
+
+/-- **Honest states pass, and only they.** The state reached by replaying any list of blocks whose
+bodies pass validation (state equation: its unspent outputs are worth the supply), read with right
+hashes and no blinding fault, passes the full validation iff every kernel in it is well signed —
+with `state_equation` this closes the loop between the per-block equations and the full-state one. -/
+theorem replayed_state_validates_iff (p : Params) (kB pB : Nat) (outs : List OutDef) (g : Blk)
+    (bs : List Blk) (s : UState) (hgo : (g.outs.map (·.1)).Nodup)
+    (hgv : sumVals outs (g.outs.map (·.1)) = p.reward) (hr : replay p (genesisState g) bs = .ok s)
+    (hb : ∀ b ∈ bs, validateBody p outs b (sumVals outs b.ins) = none) (hne : bs ≠ [])
+    (ks : List KItem) :
+    validateFull p kB pB (fullOf outs s bs.length ks) false = none ↔ ∀ k ∈ ks, k.sigBad = false := by
+  have hlen : (fullOf outs s bs.length ks).height ≠ 0 := by
+    simp only [fullOf]
+    intro h
+    exact hne (List.length_eq_zero_iff.mp h)
+  rw [validateFull_ok_iff p kB pB _ hlen]
+  have hval := state_equation p outs g bs s hgo hgv hr hb
+  have htot : (fullOf outs s bs.length ks).total = (fullOf outs s bs.length ks).supply p := by
+    simp only [FullState.total, FullState.supply, fullOf, List.map_map, if_true]
+    unfold utxoValue at hval
+    exact hval
+  have hgood : ∀ o ∈ (fullOf outs s bs.length ks).utxo, o.good := by
+    intro o ho
+    simp only [fullOf, List.mem_map] at ho
+    obtain ⟨u, _, rfl⟩ := ho
+    exact ⟨rfl, rfl, rfl⟩
+  have hk : (∀ q ∈ (fullOf outs s bs.length ks).kernelMmr, q.good) ↔ ∀ k ∈ ks, k.sigBad = false :=
+    layoutFrom_good 1 ks
+  rw [hk]
+  constructor
+  · intro h; exact h.2.2.2.2.2.2
+  · intro h; exact ⟨rfl, rfl, rfl, htot, rfl, hgood, h⟩
+
 /-! ## non-vacuity: the hypotheses hold on the concrete tree of `Lemmas/ChainExamples.lean`
 (0 ── 1 ── 3 ── 4, sibling 2 of 1, invalid child 9 of 1; 3 spends the genesis output 100 and
 4 re-creates that commitment) -/
@@ -279,4 +419,44 @@ example : Refused Ex2.P NB { Ex2.B4 with outs := [(135, true)], kers := [.plain 
   coinbase_output_without_kernel_refused Ex2.P NB _ (by decide) (by decide)
 
 end HistoryExamples
+
+/-! ### full-state validation: concrete states (five kernels — the last MMR position a leaf — and
+six — a parent; batch sizes 2 and 3 so that full batches and a remainder occur) -/
+section FullExamples
+
+open GV.Chain.FullEx
+
+-- `validateFull_ok_iff`: both sides hold on an honest state with 5 kernels and 3 outputs worth 3 rewards
+example : validateFull exP 2 2 (exState [{}, {}, {}, {}, {}] exUtxo) false = none := by decide
+example : (exState [{}, {}, {}, {}, {}] exUtxo).total = (exState [{}, {}, {}, {}, {}] exUtxo).supply exP := by
+  decide
+-- `bad_signature_refused`: the bad kernel last of six (the last MMR position is a parent), batch size 3
+example : validateFull exP 3 2 (exState [{}, {}, {}, {}, {}, { sigBad := true }] exUtxo) false ≠ none :=
+  bad_signature_refused exP 3 2 _ (by decide) { sigBad := true } (by decide) rfl
+example : validateFull exP 3 2 (exState [{}, {}, {}, {}, {}, { sigBad := true }] exUtxo) false
+    = some "Transaction:IncorrectSignature" := by decide
+-- … and accepted by the fast validation (it does not look at signatures)
+example : validateFull exP 3 2 (exState [{}, {}, {}, {}, {}, { sigBad := true }] exUtxo) true = none := by
+  decide
+-- `bad_rangeproof_refused`: the bad proof is the remainder after one full batch of two
+example : validateFull exP 2 2 (exState [{}, {}] [{ v := 60 }, { v := 50 }, { v := 70, proofBad := true }]) false
+    ≠ none :=
+  bad_rangeproof_refused exP 2 2 _ (by decide) { v := 70, proofBad := true } (by decide) (Or.inl rfl)
+-- `unbalanced_state_refused`: one output worth 1 more than it should
+example : validateFull exP 2 2 (exState [{}, {}] [{ v := 60 }, { v := 50 }, { v := 71 }]) true ≠ none :=
+  unbalanced_state_refused exP 2 2 _ (by decide) true (Or.inl (by decide))
+
+-- `replayed_state_validates_iff`: hypotheses hold on the path 0,1,3,4 of `Lemmas/ChainExamples.lean`
+open GV.Chain.Ex in
+example : validateFull Ex.P 5000 1000
+    (fullOf Ex.outs { utxo := [(101, 1, true), (103, 2, true), (105, 3, true), (100, 3, false)], nrd := [], height := 3 }
+      3 [{}, {}, {}, {}, {}, {}]) false = none :=
+  (replayed_state_validates_iff Ex.P 5000 1000 Ex.outs G [B1, B3, B4] _ (by decide) (by decide) rfl
+    (by
+      intro b hb
+      simp only [List.mem_cons, List.not_mem_nil, or_false] at hb
+      rcases hb with rfl | rfl | rfl <;> decide)
+    (by simp) [{}, {}, {}, {}, {}, {}]).mpr (by simp)
+
+end FullExamples
 end GV.Props.C01
